@@ -1,5 +1,13 @@
 package main
 
+import (
+	"context"
+	"crypto/sha256"
+	"encoding/hex"
+
+	"github.com/restic/restic/internal/global"
+)
+
 // small shared helpers of the command-level drivers
 
 func vHas(l []string, x string) bool {
@@ -25,3 +33,16 @@ func vShort(ids []string) []string {
 // vOracleSkipCheck makes vOracle skip `check --read-data` (set while judging histories whose storage was
 // damaged by the environment before the command under test ran).
 var vOracleSkipCheck bool
+
+// vRewriteHost returns a command body rewriting all snapshots to a new host name (with --forget).
+func vRewriteHost(host string) func(ctx context.Context, g global.Options) error {
+	return func(ctx context.Context, g global.Options) error {
+		return runRewrite(ctx, RewriteOptions{Forget: true, Metadata: snapshotMetadataArgs{Hostname: host}}, g, nil, g.Term)
+	}
+}
+
+// vSha returns the hex SHA-256 of b.
+func vSha(b []byte) string {
+	h := sha256.Sum256(b)
+	return hex.EncodeToString(h[:])
+}
